@@ -650,9 +650,15 @@ class SamplingMethod(DirectMethod):
         J, b = ca.Function('Jf',[],ca.linear_coeff(expr,arg)).call([],False,False)
         assert J.sparsity().is_selection(True)
         deps = ca.sum1(J.sparsity()).T.row()
-        s = self.signals[arg[deps]]
-        G = get_greville_points(self.xi, s.degree)
-        return self.t0+G*self.T, (J[:,deps] @ s.coeff)+b
+        # The signal the expression depends on, and which of its components
+        offset = 0
+        for symbol, s in self.signals.items():
+            rows = [d-offset for d in deps if offset<=d<offset+symbol.numel()]
+            if rows:
+                assert len(rows)==len(deps), "grid='gist' is available for expressions of one B-spline signal."
+                G = get_greville_points(self.xi, s.degree)
+                return self.t0+G*self.T, (J[:,deps] @ s.coeff[rows,:])+b
+            offset += symbol.numel()
 
     def set_initial_all(self, stage, master, initial_guesses):
         """Apply all initial guesses, including the localized time grid implied by the guessed t0 and T"""
